@@ -25,6 +25,17 @@ from easynetwork.servers.handlers import AsyncStreamRequestHandler
 from .. import tlsharness
 from ..core import Check, HarnessError, Inconclusive, Layer, Outcome, Violation
 from ..memtransports import MemStreamTransport, VerifBackend
+from easynetwork.lowlevel.api_async.backend.abc import AsyncBackend as _AbstractAsyncBackend
+
+
+class FairLockBackend(VerifBackend):
+    """the builtin asyncio backend overrides create_fair_lock() with asyncio.Lock; this one keeps the library's own
+    FairLock (the default of AsyncBackend), as any third-party backend would"""
+
+    __slots__ = ()
+
+    def create_fair_lock(self):  # type: ignore[no-untyped-def]
+        return _AbstractAsyncBackend.create_fair_lock(self)
 from ..vloop import Deadlock, run_virtual
 
 
@@ -66,6 +77,7 @@ def st_async_case(draw: st.DrawFn, tier: str) -> dict:
             "iterable_joined": draw(st.booleans()),
         },
         "chunky": draw(st.booleans()),
+        "fair_lock": draw(st.booleans()),
         "sut_role": draw(st.sampled_from(["client", "server"])),
         "version": draw(st.sampled_from(["1.2", "1.3"])),
     }
@@ -136,7 +148,7 @@ async def _async_session(case: dict) -> dict:
             await asyncio.gather(conductor, return_exceptions=True)
 
     elif sut in ("client", "raw-endpoint"):
-        backend = VerifBackend()
+        backend = FairLockBackend() if case.get("fair_lock") else VerifBackend()
         mem = MemStreamTransport(backend, script=case["mem_script"])
         if sut == "client":
             backend.connect_transports.append(mem)
@@ -154,7 +166,7 @@ async def _async_session(case: dict) -> dict:
             await closer()
 
     elif sut == "server-client":
-        backend = VerifBackend()
+        backend = FairLockBackend() if case.get("fair_lock") else VerifBackend()
         holder: dict[str, Any] = {}
         got_client = asyncio.Event()
 
@@ -237,6 +249,8 @@ def run_async_case(case: dict) -> Outcome:
     script = case["mem_script"]
     suspends = any(script["send_yield"]) or any(script["send_split"]) or (case["chunky"] and not script["iterable_joined"]) or case["sut"] == "tls"
     classes = [case["sut"], f"overlap-{min(r['max_overlap'], 4)}"]
+    if case.get("fair_lock") and case["sut"] in ("client", "server-client", "raw-endpoint"):
+        classes.append("library-FairLock")
     if r["failed"]:
         classes.append("busy-errors")
     if case["chunky"]:
@@ -361,6 +375,95 @@ def run_thread_case(case: dict) -> Outcome:
     return Outcome(nontrivial=True, classes=(f"{kind}-threads", f"threads-{n}"))
 
 
+# ----------------------------------------------------------------------------------------------
+# FairLock driven directly: generated schedules of acquire / hold / release / cancel against a FIFO-queue model
+
+
+@st.composite
+def st_fairlock_case(draw: st.DrawFn, tier: str) -> dict:
+    n = draw(st.integers(2, 6))
+    return {
+        "tasks": [
+            {
+                "start": draw(st.integers(0, 6)),
+                "rounds": draw(st.integers(1, 3)),
+                "hold": draw(st.lists(st.integers(0, 3), min_size=1, max_size=3)),
+                "gap": draw(st.lists(st.integers(0, 2), min_size=1, max_size=3)),
+                "cancel_at": draw(st.one_of(st.none(), st.none(), st.integers(0, 12))),
+            }
+            for _ in range(n)
+        ]
+    }
+
+
+async def _fairlock_session(case: dict) -> dict:
+    backend = AsyncIOBackend()
+    lock = _AbstractAsyncBackend.create_fair_lock(backend)
+    inside = {"n": 0, "max": 0}
+    requests: list[tuple[int, int]] = []  # order in which acquire() was called
+    grants: list[tuple[int, int]] = []  # order in which the lock was obtained
+    cancelled_waiting: set[tuple[int, int]] = set()
+    waiting: set[tuple[int, int]] = set()
+
+    async def worker(i: int, spec: dict) -> None:
+        for _ in range(spec["start"]):
+            await asyncio.sleep(0)
+        for r in range(spec["rounds"]):
+            key = (i, r)
+            requests.append(key)
+            waiting.add(key)
+            try:
+                await lock.acquire()
+            except asyncio.CancelledError:
+                cancelled_waiting.add(key)
+                raise
+            finally:
+                waiting.discard(key)
+            grants.append(key)
+            inside["n"] += 1
+            inside["max"] = max(inside["max"], inside["n"])
+            try:
+                for _ in range(spec["hold"][r % len(spec["hold"])]):
+                    await asyncio.sleep(0)
+            finally:
+                inside["n"] -= 1
+                lock.release()
+            for _ in range(spec["gap"][r % len(spec["gap"])]):
+                await asyncio.sleep(0)
+
+    tasks = [asyncio.create_task(worker(i, spec)) for i, spec in enumerate(case["tasks"])]
+    tick = 0
+    while not all(t.done() for t in tasks):
+        for i, spec in enumerate(case["tasks"]):
+            if spec["cancel_at"] == tick and not tasks[i].done():
+                tasks[i].cancel()
+        tick += 1
+        await asyncio.sleep(0)
+        if tick > 5000:
+            raise Violation("deadlock", "FairLock users never finish", sut="fair-lock")
+    results = await asyncio.gather(*tasks, return_exceptions=True)
+    errors = [r for r in results if isinstance(r, BaseException) and not isinstance(r, asyncio.CancelledError)]
+    return {"max_inside": inside["max"], "requests": requests, "grants": grants, "cancelled": cancelled_waiting, "errors": errors, "locked_after": lock.locked()}
+
+
+def run_fairlock_case(case: dict) -> Outcome:
+    try:
+        r = run_virtual(_fairlock_session, case)
+    except Deadlock as exc:
+        raise Violation("deadlock", f"FairLock: a waiter is never woken: {exc}", sut="fair-lock") from exc
+    if r["errors"]:
+        raise Violation("lock-error", f"FairLock raised {r['errors'][0]!r}", sut="fair-lock")
+    if r["max_inside"] > 1:
+        raise Violation("mutual-exclusion", f"{r['max_inside']} tasks held the FairLock at the same time", sut="fair-lock")
+    if r["locked_after"]:
+        raise Violation("lock-leaked", "FairLock still locked after every user finished", sut="fair-lock")
+    expected = [k for k in r["requests"] if k not in r["cancelled"]]
+    if r["grants"] != expected:
+        raise Violation("unfair", f"FairLock granted in order {r['grants']}, requested in order {expected}", sut="fair-lock")
+    contended = len(r["requests"]) >= 3
+    return Outcome(nontrivial=contended, classes=("fair-lock", "with-cancel" if r["cancelled"] else "no-cancel"))
+
+
 CHECK = Check(
     id="C12",
     level="exploration",
@@ -370,12 +473,13 @@ CHECK = Check(
         "commits of 1/3/7 bytes, chunk-by-chunk send_all_from_iterable) on AsyncTCPNetworkClient, the server-side client of a "
         "running AsyncTCPNetworkServer, AsyncTLSStreamTransport.send_all (wire = what the stdlib peer decrypts) and the raw "
         "AsyncStreamEndpoint (BusyResourceError allowed, must contribute zero bytes); threads layer: TCPNetworkClient / "
-        "UDPNetworkClient from 2-5 real threads over loopback with small SO_SNDBUF and a slow reader. Oracle: the wire parses "
+        "fairlock layer: the library's FairLock (default create_fair_lock of AsyncBackend; also used by half of the async-layer cases through a backend that does not override it) under generated acquire/hold/release/cancel schedules against a FIFO model; UDPNetworkClient from 2-5 real threads over loopback with small SO_SNDBUF and a slow reader. Oracle: the wire parses "
         "into exactly the packets whose send returned, each contiguous, once, per-sender order kept; lock hand-off FIFO. "
         "non-trivial = >= 2 sends overlapped in time and the transport suspended mid-packet (threads: every case); distinct = sha1(case)"
     ),
     layers=[
         Layer("async", st_async_case, run_async_case, {"quick": 500, "thorough": 3000}),
+        Layer("fairlock", st_fairlock_case, run_fairlock_case, {"quick": 400, "thorough": 3000}),
         Layer("threads", st_thread_case, run_thread_case, {"quick": 25, "thorough": 40}, shards=4),
     ],
     assumptions=[
